@@ -143,3 +143,20 @@ pub fn snapshot_of(cc: &Chitchat) -> NodeSnap {
         scheduled,
     }
 }
+
+pub fn status_kind(vv: &chitchat::VersionedValue) -> u8 {
+    match vv.status {
+        DeletionStatus::Set => 0,
+        DeletionStatus::Deleted(_) => 1,
+        DeletionStatus::DeleteAfterTtl(_) => 2,
+    }
+}
+
+/// (status kind, age of the deletion mark)
+pub fn entry_snap_light(vv: &chitchat::VersionedValue, now: tokio::time::Instant) -> (u8, Option<Duration>) {
+    match vv.status {
+        DeletionStatus::Set => (0, None),
+        DeletionStatus::Deleted(t) => (1, Some(now.duration_since(t))),
+        DeletionStatus::DeleteAfterTtl(t) => (2, Some(now.duration_since(t))),
+    }
+}
